@@ -73,14 +73,34 @@ type world struct {
 	ps     []*proc
 	nkeys  int
 	keyStr bool
+	keyMix bool
 }
 
 func (wd *world) key(k int) interface{} {
+	if wd.keyMix {
+		// equal numbers in different integer types (and a string) are different interface{} keys
+		switch k % 6 {
+		case 0:
+			return int(7)
+		case 1:
+			return int64(7)
+		case 2:
+			return uint32(7)
+		case 3:
+			return "7"
+		case 4:
+			return int64(-1)
+		default:
+			return uint64(1<<64 - 1)
+		}
+	}
 	if wd.keyStr {
 		return fmt.Sprintf("k%d", k)
 	}
 	return k
 }
+
+var mixCounter int
 
 type reply struct {
 	w   *semap.Weighted
@@ -308,6 +328,8 @@ func newMap(variant string, ratio, shards int) semap.SemMapper {
 
 func newWorld(variant string, ratio, shards, nprocs, nkeys int, keyStr bool) *world {
 	wd := &world{m: newMap(variant, ratio, shards), x: qx.New(nprocs), nkeys: nkeys, keyStr: keyStr}
+	mixCounter++
+	wd.keyMix = mixCounter%5 == 0
 	for i := 0; i < nprocs; i++ {
 		wd.ps = append(wd.ps, &proc{status: "idle"})
 	}
@@ -349,7 +371,7 @@ func (wd *world) drain(w *tr.W) {
 
 func runPlan(w *tr.W, src, variant string, ratio, shards, nprocs, nkeys int, keyStr bool, plan []act) {
 	wd := newWorld(variant, ratio, shards, nprocs, nkeys, keyStr)
-	w.Emit(tr.E{"ev": "reset", "ratio": ratio, "variant": variant, "shards": shards, "src": src, "keystr": keyStr})
+	w.Emit(tr.E{"ev": "reset", "ratio": ratio, "variant": variant, "shards": shards, "src": src, "keystr": keyStr, "keymix": wd.keyMix})
 	for _, a := range plan {
 		if a.Op == "batch" {
 			a = wd.resolveBatch(a)
